@@ -12,7 +12,7 @@ pub fn meta(tier: &str) -> CheckMeta {
     let (n1, n2, n3, cap) = params(tier);
     CheckMeta {
         id: "C03", level: "model_checking",
-        rule: "E-box over grammars x strings. G1: every grammar top->S(mid), mid->S(low), low->T with S in a menu of 10 shapes (seq, optional, repeat, repeat1, choice, field, alias, doubled) and T in 4 terminal shapes, crossed with the switches mid hidden / low hidden / mid inlined / whitespace extras (6400 grammars; those the generator rejects are counted and skipped); G2: operator grammars e -> x | e op e | -e | e! for every assignment of levels {1,2,3} x {left,right} to three binary operators x 8 unary options (1728 tables); G3: hand-written GLR grammars with declared conflicts and dynamic precedence in {-1,0,1}; G4: LR(1)-but-not-LALR(1) grammars (equal cores, different reductions per look-ahead). For each accepted grammar every token string up to the length bound (with and without single spaces). Oracle: an independent span-matching derivation enumerator over the grammar JSON decides membership (no error <=> derivable) and yields the expected visible tree (kinds, fields, aliases, hidden/inlined splicing, byte ranges): unique for G1, the Pratt parser's tree for G2, and for G3 one of the derivations with maximal dynamic precedence. Non-trivial = (grammar, string) pairs where the string is in the language.",
+        rule: "E-box over grammars x strings. G1: every grammar top->S(mid), mid->S(low), low->T with S in a menu of 10 shapes (seq, optional, repeat, repeat1, choice, field, alias, doubled) and T in 4 terminal shapes, crossed with the switches mid hidden / low hidden / mid inlined / whitespace extras (6400 grammars; those the generator rejects are counted and skipped); G2: operator grammars e -> x | e op e | -e | e! for every assignment of levels {1,2,3} x {left,right} to three binary operators x 8 unary options (1728 tables); G3: hand-written GLR grammars with declared conflicts and dynamic precedence in {-1,0,1}; G4: LR(1)-but-not-LALR(1) grammars (equal cores, different reductions per look-ahead). For each accepted grammar every token string up to the length bound (with and without single spaces). Oracle: an independent span-matching derivation enumerator over the grammar JSON decides membership (no error <=> derivable) and yields the expected visible tree (kinds, fields, aliases, hidden/inlined splicing, byte ranges): unique for G1, the Pratt parser's tree for G2, and for G3 one of the derivations with maximal dynamic precedence. G7: alias tables (three productions, at most one per-production alias each at every position, named/anonymous, both declaration orders); G8: the G4 latin square behind a declared conflict (a token both shifted and look-ahead of a reduction). Non-trivial = (grammar, string) pairs where the string is in the language.",
         assumptions: vec!["the reference deriver and the Pratt parser are the specification; they were written from the grammar DSL documentation".into()],
         exhaustive: true,
         bounds: json!({"g1_max_tokens": n1, "g2_max_tokens": n2, "g3_max_tokens": n3, "grammars_per_family_cap": cap}),
